@@ -138,7 +138,7 @@ CHECKS = {
           "without prune); oracle = real clean build of the same project state and the executed-step list of an unchanged "
           "rebuild. Bounded model checking plus conformance on generated histories, not a proof of the code.",
   "design_ref": "DESIGN.md section 4 (BobBuild.tla, C01) and 4.22",
-  "note": "deterministic generated scripts; two packages; classes and tools are not in the model yet; release mode and -j only as replay options judged by the end-to-end oracle",
+  "note": "deterministic generated scripts; two packages (one inherited class fragment, one provided tool path, one provided variable are model knobs); release mode, -j4, -D defines and import-without-prune only as replay options judged by the end-to-end oracle",
   "technique": "TLA+ spec + TLC exhaustive check; counterexample-directed and simulated edit histories replayed into real bob runs; oracle real clean build",
  },
  "C02": {
